@@ -31,6 +31,7 @@ RULE += (' Also: exits failing with a falsy exception instance.')
 RULE += (' Also: a manager whose enter calls pop_all() on the stack it is being entered on; the same exit / manager registered twice.')
 RULE += (' Also: plain callables returning the awaitable of an asynchronous exit, pushed.')
 RULE += (' Also: enters failing with a BaseException that is not an Exception.')
+RULE += (' Also: managers whose exit is a staticmethod / classmethod.')
 ASSUMPTIONS = ["nested async with/with statements of the running interpreter are the reference for routing",
                "__context__ chains are not compared"]
 EXHAUSTIVE_SUBSPACES = 'all 16842 stacks of <= 3 entries x block outcome; all histories of length <= 4 (thorough: 5) over 8 operations'
@@ -41,7 +42,10 @@ KINDS = ["acm", "scm", "apush", "spush", "cb"]
 KINDS_EXTRA = KINDS + ["dualcm", "dualpush", "scmpush", "acmpush",
                        # a plain (not ``async def``) callable handing back the awaitable of an asynchronous exit: a
                        # wrapped handler, a lambda delegating to one
-                       "wpush", "wpush"]  # ...push: a manager object pushed, never entered
+                       "wpush", "wpush",
+                       # managers whose exit is a staticmethod / classmethod (a class-level resource): ordinary attribute
+                       # access binds them correctly, like the with statements do
+                       "staticacm", "classscm"]  # ...push: a manager object pushed, never entered
 BEHS = ["falsy", "truthy", "raise", "raise_if_exc"]
 # sampled in addition to the enumerated behaviours: exits that raise a BaseException which is not an Exception
 BEHS_EXTRA = BEHS + ["raise_base", "raise_base_if_exc", "reraise_same", "reraise_same",
@@ -260,6 +264,20 @@ def mk_entry(kind, beh, i, log, susp, choice, shared=None):
             log.append(("sync-exit-used", i))
             return False
 
+    if kind == "staticacm":
+        class StaticExitACM(ACM):
+            @staticmethod
+            async def __aexit__(et, ev, tb):
+                if susp:
+                    await Suspend(("exit", i), susp)
+                return exit_logic(et, ev, tb)
+        return StaticExitACM()
+    if kind == "classscm":
+        class ClassExitSCM(SCM):
+            @classmethod
+            def __exit__(cls, et, ev, tb):
+                return exit_logic(et, ev, tb)
+        return ClassExitSCM()
     if kind in ("acm", "acmpush"):
         return ACM()
     if kind in ("scm", "scmpush"):
@@ -317,7 +335,7 @@ def run_stack(case, stats):
             return
         k, _ = spec[i]
         e = ents[i]
-        if k in ("acm", "dualcm"):
+        if k in ("acm", "dualcm", "staticacm"):
             async with e as v:
                 l1.append(("value", v))
                 await nest(i + 1)
@@ -331,7 +349,7 @@ def run_stack(case, stats):
 
             async with W():
                 await nest(i + 1)
-        elif k == "scm":
+        elif k in ("scm", "classscm"):
             with e as v:
                 l1.append(("value", v))
                 await nest(i + 1)
@@ -398,7 +416,7 @@ def run_stack(case, stats):
         async with A.ExitStack() as s:
             for i, (k, _) in enumerate(spec):
                 e = ents2[i]
-                if k in ("acm", "scm", "dualcm"):
+                if k in ("acm", "scm", "dualcm", "staticacm", "classscm"):
                     v = await s.enter_context(e)
                     l2.append(("value", v))
                 elif k in ("apush", "wpush", "spush", "dualpush", "scmpush", "acmpush"):
